@@ -86,6 +86,13 @@ def strategy(tier):
         # the server ends one namespace; the others, with their outstanding
         # callbacks, are not affected
         st.fixed_dictionaries({'op': st.just('sdisc_ns'), 'ns': nsi}),
+        # the handler of an event uses call() itself and answers with what
+        # the server acknowledged: the acknowledgement is dispatched (by
+        # another engine.io thread / task) while the handler is still running
+        st.fixed_dictionaries({'op': st.just('ev_calls'), 'ns': nsi,
+                               'id': st.one_of(st.none(), st.integers(0, 5)),
+                               'answer': st.sampled_from(['pong', 7,
+                                                          [1, 2]])}),
         # the application registers one more handler while connected: events
         # from then on go to whichever handler is now the most specific
         st.fixed_dictionaries({'op': st.just('reg'),
@@ -179,14 +186,25 @@ def _run(case, h):
                 return rets[a['__tag']]
         return None
 
+    callers = set()     # tags of events whose handler uses call()
+
+    def _tag_of(args):
+        for a in args:
+            if isinstance(a, dict) and set(a) == {'__tag'}:
+                return a['__tag']
+
     def mk(kind, ns):
         if coro:
             async def f(*args):
                 log.append((kind, ns, args))
+                if _tag_of(args) in callers:
+                    return await sio.call('q', 1, namespace=ns, timeout=5)
                 return result(args)
         else:
             def f(*args):
                 log.append((kind, ns, args))
+                if _tag_of(args) in callers and not aio:
+                    return sio.call('q', 1, namespace=ns, timeout=5)
                 return result(args)
         return f
 
@@ -318,6 +336,69 @@ def _run(case, h):
             if any(outstanding[n] for n in nss):
                 labels['nontrivial'] = True
             check_quiet(step, 'sdisc_ns')
+            continue
+        if k == 'ev_calls':
+            tgt = responsible(ns, 'a', regs)
+            if tgt is None or tgt[1] != ns or (aio and not coro):
+                continue
+            import threading
+            tag[0] += 1
+            rets[tag[0]] = None
+            callers.add(tag[0])
+            h.take_outbox()
+            st8 = {'blocked': False, 'cid': None}
+
+            def answer_call(*_):
+                pk = [p for p in reader.read(h.take_msgs())
+                      if p['type'] == wire.EVENT]
+                if len(pk) != 1 or type(pk[0]['id']) is not int:
+                    raise Violation('call-frame', repr(pk))
+                st8['cid'] = pk[0]['id']
+                fr = wire.frames(wire.ACK, ns, pk[0]['id'], [op['answer']])
+                if aio:
+                    for f in fr:
+                        h.deliver(f)
+                    return
+                # engine.io dispatches every message on a thread of its own
+                th = threading.Thread(target=lambda: [h.deliver(f)
+                                                      for f in fr],
+                                      daemon=True)
+                th.start()
+                th.join(20)
+                st8['blocked'] = th.is_alive()
+            if aio:
+                for f in wire.frames(wire.EVENT, ns, op['id'],
+                                     ['a', {'__tag': tag[0]}]):
+                    h.deliver(f)
+                answer_call()
+                h.loop.run_until_idle()
+            else:
+                h.on_wait = answer_call
+                try:
+                    for f in wire.frames(wire.EVENT, ns, op['id'],
+                                         ['a', {'__tag': tag[0]}]):
+                        h.deliver(f)
+                finally:
+                    h.on_wait = None
+            if st8['blocked']:
+                raise Violation('ack-blocked-while-handler-runs',
+                                'the acknowledgement of a call() made by an '
+                                'event handler was not processed while the '
+                                'handler was waiting for it')
+            used[ns].append(st8['cid'])
+            last_id[ns] = st8['cid']
+            pk = reader.read(h.take_msgs())
+            want = [] if op['id'] is None else [
+                (wire.ACK, ns, op['id'], [op['answer']])]
+            if [(p['type'], p['nsp'], p['id'], p['data']) for p in pk] != \
+                    want:
+                raise Violation('ack-mismatch', 'event whose handler '
+                                'answers with the result of a call(): %r, '
+                                'expected %r' % (pk, want))
+            labels['handler_uses_call'] = True
+            labels['nontrivial'] = True
+            dirs.update(('in', 'out'))
+            check_quiet(step, 'ev_calls')
             continue
         if k == 'reg':
             w = op['what']
